@@ -92,6 +92,10 @@ func c12Cases(tier string) []Case {
 	ex("sendall-bad-bound", "vars {\n number $c\n}\n"+sendAll("USD", "{ @b @a allowing overdraft up to $c }", "@d"), "c=num", "", "TypeError")
 	ex("sendall-bad-bound", sendAll("USD", "max [USD 5] from @a allowing overdraft up to $ghost", "@d"), "", "", "UnboundVariableErr")
 	ex("sendall-bad-cap", "vars {\n monetary $c\n}\n"+sendAll("USD", "max $c from @a", "{ max $c to @d remaining kept }"), "c=mon:EUR", "", "MismatchedCurrencyError")
+	ex("meta-origin-bad-text", "vars {\n number $x = meta(@a, \"k\")\n}\nset_tx_meta(\"count\", $x)", "_meta=a.k:12abc", "", "InvalidNumberLiteral")
+	ex("meta-origin-bad-text", "vars {\n portion $x = meta(@a, \"k\")\n}\n"+send("[USD 10]", "@world", "{ $x to @d remaining to @e }"), "_meta=a.k:twelve percent", "", "BadPortionParsingErr")
+	ex("meta-origin-bad-text", "vars {\n monetary $x = meta(@a, \"k\")\n}\n"+send("$x", "@world", "@d"), "_meta=a.k:USD/2", "", "InvalidMonetaryLiteral")
+	ex("meta-origin-bad-text", "vars {\n account $x = meta(@a, \"k\")\n}\n"+send("[USD 1]", "@world", "$x"), "_meta=a.k:not an account", "", "InvalidAccountName")
 	ex("experimental-flag", "vars {\n monetary $o = overdraft(@a, USD)\n}\n"+send("$o", "@world", "@d"), "", "", "ExperimentalFeature")
 	ex("negative-balance", "vars {\n monetary $m = balance(@a, USD)\n}\n"+send("$m", "@world", "@d"), "", "", "|NegativeBalanceError")
 	ex("zero-denominator", send("[USD 10]", "@world", "{ 1/0 to @d remaining to @e }"), "", "", "BadPortionParsingErr|InvalidAllotmentSum|other")
@@ -102,6 +106,8 @@ func c12Cases(tier string) []Case {
 	ex("huge-denominator", "set_tx_meta(\"p\", 3/36893488147419103232)", "", "", "")
 	ex("huge-numbers", "vars {\n number $n\n number $m\n}\nset_tx_meta(\"k\", $n + $m - $n)", "n=num;m=num", "", "")
 	// (d) store faults at every call
+	two := c10Case("meta-origin x2", []string{`account $x = meta(@a, "k")`, `account $y = meta(@b, "k")`}, []string{send("%N", "{ $x $y }", "@d")}, nil, "a.k=b,b.k=a", "")
+	cases = append(cases, Case{ID: "C12 store-fault " + two.ID[4:], Pkg: "", Fn: "ZZC12Fault", Args: two.Args, Tag: "store-fault"})
 	for _, c := range c10Cases(tier) {
 		cases = append(cases, Case{ID: "C12 store-fault " + c.ID[4:], Pkg: "", Fn: "ZZC12Fault", Args: c.Args, Tag: "store-fault"})
 	}
